@@ -245,6 +245,8 @@ func (e *Exec) resetPath(it workItem) {
 	e.ts = nil
 	e.analyzers = nil
 	e.lastAnalyzer = nil
+	e.lastSwagger = nil
+	e.swAnalyzer = nil
 	e.merge = nil
 	e.in = newInterner()
 	e.depth = 0
